@@ -240,6 +240,10 @@ func c17Case(c *vCtx, idx int64, cfg fsmConfig, evs []fsmEvent, twinSeed uint64,
 			c.Violation("panic", label, p)
 			return
 		}
+		if r.blockedRequests > 0 {
+			c.Violation("test-recording-request-blocks", label, fmt.Sprintf("%d test-recording request(s) did not return within 10 s", r.blockedRequests))
+			return
+		}
 		v := newFsmView(r)
 		for _, x := range oracleC17Continuous(v) {
 			c.Violation(x.kind, x.class, x.detail)
